@@ -10,13 +10,17 @@ example : Facts.readSites =
 
 example : Facts.readUntypedConds = ["err != nil", "size > reader.MaxMessageSize || size < 0"] := rfl
 
-example : Facts.slurpConds = ["for remaining > 0", "reading > reader.MaxMessageSize", "err != nil"] := rfl
+-- "err == io.EOF": a stream ending inside the announced body is reported as unexpected EOF (fix D22);
+-- the model's Slurp failure (`big … full = false`) is `errUnexpectedEOF` at every position
+example : Facts.slurpConds = ["for remaining > 0", "reading > reader.MaxMessageSize", "err == io.EOF", "err != nil"] := rfl
 
 example : Facts.readMsgSizeBody = 
   "{ nread, err := io.ReadFull(reader.Buffer, reader.header[:]) if err != nil { return nread, err } size := int(binary.BigEndian.Uint32(reader.header[:])) size -= 4 return size, nil }" := rfl
 
+-- "err == io.EOF": once the type byte is consumed, the end of the stream is an unexpected EOF (fix D22);
+-- model: `Tail.eof true` (bytes of an incomplete message pending) reads as `errUnexpectedEOF`
 example : Facts.readerReadTypedMsg = 
-  "{ typed, err := reader.ReadType() if err != nil { return typed, 0, err } n, err := reader.ReadUntypedMsg() if err != nil { return typed, 0, err } return typed, n, nil }" := rfl
+  "{ typed, err := reader.ReadType() if err != nil { return typed, 0, err } n, err := reader.ReadUntypedMsg() if err == io.EOF { err = io.ErrUnexpectedEOF } if err != nil { return typed, 0, err } return typed, n, nil }" := rfl
 
 example : Facts.readerReadType = 
   "{ b, err := reader.Buffer.ReadByte() if err != nil { return 0, err } return types.ClientMessage(b), nil }" := rfl
